@@ -321,6 +321,27 @@ def run(world, rep, tier, only=None):
                "ext2fs_dirhash2(%s, …): the version went through the unsigned-hash adjustment (index placement must equal "
                "the kernel's)" % how)
 
+    # ------------------------------------------------------------------ C10.i no stale inode copy is written over a callee's update
+    # ext2fs_link() / ext2fs_expand_dir() / the inline-data helpers / a block walk rewrite the on-disk inode they are
+    # given (a grown htree, a new block, a converted inline directory).  A caller that then writes its own copy of
+    # that inode must have read it again, or size, block count and mapping go back to the old values.
+    NS_FILES = ("lib/ext2fs/mkdir.c", "lib/ext2fs/symlink.c", "lib/ext2fs/link.c", "lib/ext2fs/unlink.c", "lib/ext2fs/expanddir.c",
+                "lib/ext2fs/orphan.c", "misc/create_inode.c", "misc/create_inode_libarchive.c", "misc/mk_hugefiles.c",
+                "misc/fuse2fs.c", "debugfs/")
+    n_i = 0
+    seen_i = set()
+    for pr in (dbg, world.program("mke2fs"), world.program("fuse2fs")):
+        for f in pr.functions():
+            if not f.file.startswith(NS_FILES) or f.key in seen_i:
+                continue
+            seen_i.add(f.key)
+            for (m, w_, stale) in stale_inode_writes(f):
+                n_i += 1
+                rep.ob("C10.i", site(f, "inode written at line %d is fresh after %s" % (w_.line, T.call_names(m.ev["x"])[0])), not stale,
+                       "every path from `%s` (line %d) to `%s` re-reads the inode into the written copy" %
+                       (m.text()[:30], m.line, w_.text()[:40]))
+    rep.floor("C10.i rewrite-then-write pairs in the namespace code", n_i, 6)
+
     # ------------------------------------------------------------------ C10.f link/unlink report the outcome
     for (file, name, cb, nf) in (("lib/ext2fs/unlink.c", "ext2fs_unlink", "unlink_proc", "EXT2_ET_DIR_NO_SPACE"),
                                  ("lib/ext2fs/link.c", "ext2fs_link", "link_proc", "EXT2_ET_DIR_NO_SPACE")):
